@@ -75,6 +75,8 @@ def run(res):
             why.append("generated code changed by migration")
         if r["other_files"]:
             why.append("migrate touched other files: " + r["other_files"])
+        if r.get("siblings"):
+            why.append("sibling files of the same migrate run (a_first.go: real legacy markers on every line 4..163; z_last.go: look-alikes inside a raw string on every line 4..163): " + r["siblings"])
         if not r["tokens_same"]:
             why.append("Go token stream (comments excluded) changed")
         if why:
